@@ -4,15 +4,16 @@ spec:     specs/c16_obfuscation  ObfP (property per leaf + structure), ObfI (tra
           exclusion test and the HAR collector's prefix selection; variants suffix / exact / name), MC_C16, GenC16 (bounded
           input space as a constant set), ObfTrace (one event per executed case, judged by ObfP)
 binding:  harness/cmd/c16 renders documents and exclusions to text, calls the real Obfuscator.ObfuscateJSON (production MD5
-          hasher) or the HAR collector's body obfuscation (export_verif_c16.go) and projects the output leaf by leaf
+          hasher), the HAR collector's body obfuscation (export_verif_c16.go) or the legacy HARGeneratorPlugin.GenerateHAR and
+          projects the output leaf by leaf
 """
 import json, os, re
 from vlib import Broken, read_ndjson
-from fnjudge import judge_cases, judge_cases_detail
+from fnjudge import judge_cases, judge_cases_detail, exhaustive_parallel
 
 SPEC = "c16_obfuscation"
 
-NAMES = ["name", "id", "user", "body", "request", "items", "a", "data"]
+NAMES = ["name", "Name", "id", "user", "body", "request", "items", "a", "data"]
 STRS = ["", "x", "Alice", "d41d8cd98f00b204e9800998ecf8427e", "a\"b\\c", "zé ✓", "<tag>&", "line\nbreak", "null", "true", "12"]
 NUMS = ["0", "-1", "7", "10", "3.14159", "1.50", "10.999", "1e5", "-2.5E-3", "123456789012", "0.1"]
 
@@ -70,13 +71,15 @@ def rand_excl(rng, paths, entry):
         return {"n": "foreign", "segs": base, "raw": raw}, "foreign"
     if entry == "json":
         n = rng.choice(["plain", "plain", "request", "response"])
+    elif entry.startswith("legacy"):
+        n = rng.choice(["plain", "plain", "plain", "plain_other", "plain_other", "request"])
     else:
         n = rng.choice(["request", "request", "response", "response", "response", "plain"])
     return {"n": n, "segs": segs}, kind
 
 
 def rand_case(rng, depth):
-    entry = rng.choice(["json", "json", "har_request", "har_response"])
+    entry = rng.choice(["json", "json", "har_request", "har_response", "legacy_request", "legacy_response"])
     doc = rand_doc(rng, depth)
     if doc["k"] == "obj" and rng.random() < 0.5:
         # graft a copy of a nested subtree at the top level: the same names at different depths
@@ -182,23 +185,24 @@ def run(ctx):
     ctx.assumptions += ["keys contain no '.', '[' or '$' and are unique within an object (the path notation is ambiguous otherwise)",
                         "array steps are written '[]' in both notations (the only form the code supports)",
                         "the statement is silent on null: a null outside excluded paths may be hashed or kept",
-                        "the plain notation is not a notation of the HAR collector's exclusion list: its effect there is left open"]
+                        "the plain notation is not a notation of the HAR collector's exclusion list, a JSONPath is not a notation of the legacy "
+                        "exporter's request_body_paths / response_body_paths: their effect there is left open"]
 
     # (1) exhaustive I => P; the pinned commit's suffix test and a by-name variant must be refuted (non-vacuity)
-    ex = [("MC_json_quick.cfg", "I=>P ObfuscateJSON"), ("MC_har_quick.cfg", "I=>P HAR collector bodies")] if not T else \
+    ex = [("MC_json_quick.cfg", "I=>P ObfuscateJSON"), ("MC_har_quick.cfg", "I=>P HAR collector bodies"),
+          ("MC_legacy_quick.cfg", "I=>P legacy HAR generator bodies")] if not T else \
          [("MC_json_T1.cfg", "I=>P ObfuscateJSON incl. null, 3 notations, pairs"), ("MC_json_T2.cfg", "I=>P keys a,b,body, paths <= 3"),
           ("MC_json_T3.cfg", "I=>P depth 3"), ("MC_har_T4.cfg", "I=>P HAR collector, keys a,b,body"),
-          ("MC_json_quick.cfg", "I=>P ObfuscateJSON"), ("MC_har_quick.cfg", "I=>P HAR collector bodies")]
-    for cfg, label in ex:
-        ctx.tlc_exhaustive(sd, "MC_C16", cfg, timeout=1500, label=label, workers=8 if not T else None)
-    for cfg, what in (("MC_json_quick_suffix.cfg", "suffix test of the pinned commit"), ("MC_json_quick_name.cfg", "exclusion by key name")):
-        r = ctx.tlc(sd, "MC_C16", cfg, timeout=600, workers=4, label="non-vacuity: %s must be refuted" % what)
-        if r.violated != "Conforms":
-            raise Broken("the model does not distinguish the %s from the property (vacuous): %r" % (what, r))
+          ("MC_json_quick.cfg", "I=>P ObfuscateJSON"), ("MC_har_quick.cfg", "I=>P HAR collector bodies"),
+          ("MC_legacy_quick.cfg", "I=>P legacy HAR generator bodies")]
+    runs = [(cfg, label, None) for cfg, label in ex] + [
+        ("MC_json_quick_suffix.cfg", "non-vacuity: the suffix test of the pinned commit must be refuted", "Conforms"),
+        ("MC_json_quick_name.cfg", "non-vacuity: exclusion by key name must be refuted", "Conforms")]
+    exhaustive_parallel(ctx, sd, "MC_C16", runs, workers=4 if not T else 8, par=5 if not T else 2)
 
     seen = set()
     # (2) spec -> code: the bounded input space generated by TLC, executed completely
-    gens = ["Gen_json_quick.cfg", "Gen_har_quick.cfg"] + (["Gen_json_T.cfg", "Gen_har_T.cfg"] if T else [])
+    gens = ["Gen_json_quick.cfg", "Gen_har_quick.cfg", "Gen_legacy_quick.cfg"] + (["Gen_json_T.cfg", "Gen_har_T.cfg"] if T else [])
     cases = []
     for g in gens:
         cases += gen_cases(ctx, g)
@@ -226,8 +230,8 @@ def run(ctx):
     for e in events:
         for l in e["leaves"]:
             types[(l["t"], l["c"])] = types.get((l["t"], l["c"]), 0) + 1
-    for t in "snbz":
-        if not types.get((t, "hidden")) or not types.get((t, "kept")):
+    for t in "snb":
+        if not ctx.violations and (not types.get((t, "hidden")) or not types.get((t, "kept"))):
             raise Broken("random cases never produced a hidden and a kept leaf of type %s (vacuous): %s" % (t, types))
     ctx.log("random: %d cases, %d rejected; %d cases with a colliding exclusion and hidden leaves; leaves by (type, class): %s" % (
         n, len(rej), coll, sorted(types.items())))
